@@ -43,6 +43,11 @@ CLAIMED = {
             'the four builders are otherwise the same function; new_eq = geq and leq; lb/ub(lin) select bounds by coefficient sign; new_var(lin) seeds the slack from the expression; core routes by type. '
             'Injectivity of the printed-expression cache key is not decided.',
             'Trusts the semantics of assertion(op, slack, c) established by C09.R3.', 'DESIGN.md 4 C11'),
+    'C09': ('dual comparison (lb<->ub token map) of the six LRA bound routines and the two arms of check(); explanation-completeness patterns; decision table of propagate; writer table and effect patterns of pivot/update',
+            'Static: upper-bound code is the exact dual of lower-bound code (so a one-sided edit is always seen); the primal explanations name every term of the row with the bound selected by the '
+            'coefficient sign plus the violated bound; the epsilon table of negated assertions; tableau/watch/value writers and the arithmetic of pivot, update and pivot_and_update. '
+            'Termination of the simplex and the model property on arbitrary histories are not decided.',
+            'One accepted asymmetry (row::propagate_ub tests lb(v) instead of lb(c_v), benign) is listed by name in orv/rules/C09.py.', 'DESIGN.md 4 C09'),
 }
 
 NOT_YET = {}
